@@ -243,8 +243,16 @@ Record leaf := mkLeaf {
   lpad : bool;             (* padding is not None *)
   lnever : bool;           (* never_pad *)
   ltxt : string;           (* ValueNode.format() as it is *)
-  ltxtsp : string          (* ValueNode.format() after padding := PaddingNode(" ") *)
+  ltxtsp : string;         (* ValueNode.format() after padding := PaddingNode(" ") *)
+  lneg : option bool       (* is_negative: the separately stored minus sign of a negatable node (None: not negatable) *)
 }.
+
+Definition neg_eqb (a b : option bool) : bool :=
+  match a, b with
+  | None, None => true
+  | Some x, Some y => Bool.eqb x y
+  | _, _ => false
+  end.
 
 (* a ShortcutNode *)
 Record sc := mkSc {
@@ -311,7 +319,9 @@ Definition can_consume (s : sc) (pos : nat) (node : leaf) (fwd : bool) (last_edg
           | Some edge =>
               if negb (vty_eqb (lty edge) (lty node)) then Ok (false, s)
               else match lval edge, lval node with
-                   | Some a, Some b => Ok (qclose a b, s)
+                   | Some a, Some b =>
+                       (* a neighbour that differs only in its separately stored minus sign is not a repeat *)
+                       if negb (neg_eqb (lneg edge) (lneg node)) then Ok (false, s) else Ok (qclose a b, s)
                    | _, _ => Ok (false, s)
                    end
           end
@@ -521,7 +531,7 @@ Record listnode := mkList { lnodes : list lnode; lshorts : list sc }.
 
 (* a value that ends up as a plain entry of the list can be padded again: never_pad is cleared when it has no padding *)
 Definition unpin (l : leaf) : leaf :=
-  if lpad l then l else mkLeaf (lid l) (lval l) (lty l) (lpad l) false (ltxt l) (ltxtsp l).
+  if lpad l then l else mkLeaf (lid l) (lval l) (lty l) (lpad l) false (ltxt l) (ltxtsp l) (lneg l).
 
 (* the loop that rebuilds _nodes / _shortcuts from the cache; [lastsc] = id of _shortcuts[-1] *)
 Fixpoint collect (cache : list (entry * leaf)) (store : list sc) (lastsc : option Z)
@@ -1231,21 +1241,23 @@ Definition parse_bool (s : string) : option bool :=
   if String.eqb s "1" then Some true else if String.eqb s "0" then Some false else None.
 Definition parse_hex (s : string) : string := if String.eqb s "-" then "" else hex_decode s.
 
-(* leaf: id:val:ty:pad:never:txt:txtsp   (val = J | num/den ; ty = i | f ; texts in hex, "-" = empty) *)
+(* leaf: id:val:ty:pad:never:txt:txtsp:neg   (val = J | num/den ; ty = i | f ; texts in hex, "-" = empty;
+   neg = - | 0 | 1) *)
 Definition parse_leaf (s : string) : option leaf :=
   match split_on ":"%char s with
-  | [i; v; ty; p; n; t; tsp] =>
+  | [i; v; ty; p; n; t; tsp; ng] =>
       match parse_Z i, (if String.eqb v "J" then Some None else option_map Some (parse_Q v)),
             (if String.eqb ty "i" then Some TyInt else if String.eqb ty "f" then Some TyFloat else None),
             parse_bool p, parse_bool n with
       | Some id, Some val, Some t', Some pb, Some nb =>
-          Some (mkLeaf id val t' pb nb (parse_hex t) (parse_hex tsp))
+          Some (mkLeaf id val t' pb nb (parse_hex t) (parse_hex tsp)
+                       (if String.eqb ng "-" then None else parse_bool ng))
       | _, _, _, _, _ => None
       end
   | _ => None
   end.
 
-Definition dummy_leaf (id : Z) : leaf := mkLeaf id None TyFloat false false "" "".
+Definition dummy_leaf (id : Z) : leaf := mkLeaf id None TyFloat false false "" "" None.
 Fixpoint find_leaf (id : Z) (pool : list leaf) : leaf :=
   match pool with
   | [] => dummy_leaf id
